@@ -330,6 +330,87 @@ def gen_track_history(rng, schema, nops, hist):
     return lines
 
 
+def gen_boundary_script(schema):
+    """Deterministic (seed-independent) boundary rows: every optional integer / optional time point PRESENT with
+    the values 0, 1, -1 (seconds for time points, plus sub-second remainders), every plain integer and time
+    point at 0 / +-1, every optional string present-and-empty, every optional double +0.0 — written by add(),
+    update() and by each setter, read back by get() and by every getter.  A conversion that treats a stored
+    zero as "absent" (or an absent value as zero) shows here on every run."""
+    g = G(random.Random(18), {})
+    lines = ["#mode tableapi", "tt.create " + schema, "tt.uuid " + cd.hexb(b"lib-uuid-1"), "tt.clock 1700000000",
+             "inf.setcpi 0"]
+    fields = [f for f, _ in TRACK_FIELDS if f != "id"]
+
+    def row(rid, k, n):
+        r = {}
+        for f, ty in TRACK_FIELDS:
+            if ty in ("i64", "oi64", "oi32"):
+                r[f] = k
+            elif ty in ("time", "otime"):
+                r[f] = k * 10 ** 9 + (0 if n % 2 == 0 else (999999999 if k >= 0 else -999999999))
+            elif ty == "str":
+                r[f] = b""
+            elif ty == "ostr":
+                r[f] = b""
+            elif ty == "odbl":
+                r[f] = cd.ZERO if k == 0 else cd.dbits(float(k))
+            elif ty == "bool":
+                r[f] = k != 0
+            else:
+                r[f] = g.blob(ty[5:]) if False else {"v2.track": dict(sr=cd.ZERO, samples=0, key=0, lo=cd.ZERO, mid=cd.ZERO, hi=cd.ZERO, extra=b""),
+                                                      "v2.ovw": dict(spp=cd.ZERO, pts=b"", mx=b"\0\0\0", extra=b""),
+                                                      "v2.beat": dict(sr=cd.ZERO, samples=cd.ZERO, flag=0, dflt=[], adj=[], extra=b""),
+                                                      "v2.cues": dict(cues=[], adj=cd.ZERO, flag=0, dflt=cd.ZERO, extra=b""),
+                                                      "v2.loops": dict(loops=[], extra=b"")}[ty[5:]]
+        r["id"] = rid
+        r["path"] = b"p%d_%d" % (n, k)
+        r["origin_database_uuid"], r["origin_track_id"] = b"other-db", 100 + n
+        return r
+    n = 0
+    for k in (0, 1, -1):
+        n += 1
+        lines.append("tt.add " + fmt_row(TRACK_FIELDS, row(0, k, n)))
+        lines.append("tt.get %d" % n)
+        for f in fields:
+            lines.append("tt.getc %s %d" % (f, n))
+    # update row 1 with the sub-second variants, rows 2 / 3 crosswise
+    for (i, k) in ((1, -1), (2, 0), (3, 1)):
+        n += 1
+        lines.append("tt.get %d" % i)
+        lines.append("tt.update " + fmt_row(TRACK_FIELDS, row(i, k, n)))
+        lines.append("tt.get %d" % i)
+    # every optional / time setter with 0, +-1 s and absent
+    for f in fields:
+        ty = TRACK_ACC_TY[f]
+        if ty in ("oi64", "oi32", "otime", "time"):
+            for v in ([0, 1, -1, None] if ty.startswith("o") else [0, 10 ** 9, -10 ** 9]):
+                if ty in ("otime",) and v not in (None,):
+                    v = v * 10 ** 9 if abs(v) < 10 ** 6 else v
+                lines.append("tt.get 2")
+                lines.append("tt.setc %s 2 %s" % (f, tok(ty, v)))
+                lines.append("tt.get 2")
+                lines.append("tt.getc %s 2" % f)
+    lines += ["tt.ids", "tt.raw"]
+    return lines
+
+
+def gen_crosslist_script(schema):
+    """Deterministic: two playlists with entities of both; every (list, entity) operation is also issued with
+    the id of the OTHER list, with the arguments transposed, and with ids that do not exist; raw rows around
+    each call."""
+    L = ["#mode tableapi", "tt.create " + schema,
+         "tpl.add 0 %s 0 0 0 0 0" % cd.hexb(b"A"), "tpl.add 0 %s 0 0 0 0 0" % cd.hexb(b"B"), "tpl.ids"]
+    for (l, t, u) in ((1, 1, b"a"), (2, 1, b"a"), (1, 2, b"a"), (2, 2, b"b"), (1, 3, b"b")):
+        L += ["tpe.raw", "tpe.add 0 %d %d %s 0 0 0" % (l, t, cd.hexb(u)), "tpe.get %d %d" % (l, t),
+              "tpe.get3 %d %d %s" % (l, t, cd.hexb(u))]
+    # entities: 1:(1,1) 2:(2,1) 3:(1,2) 4:(2,2) 5:(1,3)
+    for (l, e) in ((2, 1), (1, 2), (1, 1000), (3, 1), (0, 1), (1, 1), (1, 1), (2, 3), (3, 1), (5, 1), (2, 2), (2, 5), (1, 5)):
+        L += ["tpe.raw", "tpe.remove %d %d" % (l, e), "tpe.raw", "tpe.list 1", "tpe.list 2", "tpe.tracks 1"]
+    L += ["tpe.get3 1 2 %s" % cd.hexb(b"a"), "tpe.get3 2 2 %s" % cd.hexb(b"a"), "tpe.get 2 2", "tpe.raw",
+          "tpe.clear 2", "tpe.raw", "tpe.list 2", "tpe.list 1"]
+    return L
+
+
 # ------------------------------------------------------------------ list tables (Playlist, PlaylistEntity)
 class PlSim:
     """What the generator needs to know about the Playlist table to choose meaningful and
@@ -585,9 +666,9 @@ def gen_list_history(rng, schema, nops, hist):
 
 
 # ------------------------------------------------------------------ running
-def run_pair(scripts):
+def run_pair(scripts, watchdog=20):
     """-> list of (lines, impl outputs, model outputs)"""
-    h = runner.run_harness(scripts, watchdog=20, stateless=False)
+    h = runner.run_harness(scripts, watchdog=watchdog, stateless=False)
     m = runner.run_model(scripts)
     return [(s, ho, mo) for s, (ho, _), mo in zip(scripts, h, m)]
 
